@@ -608,58 +608,81 @@ def block_ctor(prog, ctx):
     probs = []
     if sorted(role.values()) != ['heights', 'widths']:
         probs.append('height/width tables not recognised: %s' % role)
-    # the element assignment
-    asg = None
-    for e in all_assign(fn):
-        l = strip(e['lhs'])
-        if l.get('k') == 'Index' and strip(l['base']).get('k') == 'Index' and 'components' in show(l):
-            r = show(strip_casts(e['rhs'])).replace(' ', '')
-            if r.startswith(blocks + '['):
-                asg = e
-    offs = {}
+    # the element assignment components[R][C] = blocks[r][c][i][j]: R - i and C - j as terms in the block position (r, c); a
+    # running offset carried by the loops has the closed form symx gives it (sum of the earlier increments / last stored value)
+    from ..symx import terms_at
+    asg_s, asg = None, None
     for s_ in walk_stmts(fn.body):
-        if s_['k'] == 'Decl':
-            for d in s_['decls']:
-                if d.get('init') is not None and any(n.get('k') == 'Call' and (n.get('callee') or {}).get('name') == 'accumulate' for n in walk_expr(d['init'])):
-                    try:
-                        v = sx.sym(d['init'], st)
-                        sums_ = list(v.atoms(sp.Sum)) if isinstance(v, sp.Basic) else []
-                        if len(sums_) == 1 and len(sums_[0].limits) == 1 and isinstance(sums_[0].function, sp.core.function.AppliedUndef) \
-                                and tuple(sums_[0].function.args) == (sums_[0].limits[0][0],):
-                            iv_, lo_, hi_ = sums_[0].limits[0]
-                            offs[d['name']] = (sums_[0].function.func.__name__, lo_, str(sp.simplify(hi_ + 1)), sp.simplify(v - sums_[0]))
-                    except Undecided:
-                        pass
+        if s_['k'] != 'Expr':
+            continue
+        e = strip(s_['e'])
+        if e.get('k') == 'Bin' and e['op'] == '=':
+            l = strip(e['lhs'])
+            if l.get('k') == 'Index' and strip(l['base']).get('k') == 'Index' and 'components' in show(l):
+                asg_s, asg = s_, e
     if asg is None:
-        probs.append('element assignment components[..][..] = blocks[r][c][i][j] not found')
-    else:
-        l = strip(asg['lhs'])
-        i_row = show(strip_casts(strip(l['base'])['idx'])).replace(' ', '')
-        i_col = show(strip_casts(l['idx'])).replace(' ', '')
-        rhs = show(strip_casts(asg['rhs'])).replace(' ', '')
-        import re
-        m = re.match(re.escape(blocks) + r'\[(\w+)\]\[(\w+)\]\[(\w+)\]\[(\w+)\]$', rhs)
-        if not m:
-            probs.append('right-hand side is %s' % rhs)
-        else:
-            br, bc, ii, jj = m.groups()
-            for what, sub, inner, blockvar, want in (('row', i_row, ii, br, 'heights'), ('column', i_col, jj, bc, 'widths')):
-                parts = sub.split('+')
-                off = [p_ for p_ in parts if p_ in offs]
-                if len(parts) != 2 or inner not in parts or len(off) != 1:
-                    probs.append('%s subscript is %s, expected <offset>+%s' % (what, sub, inner))
+        ctx.undecided(R, 'Matrix(blocks)', fn, 'block constructor outside the understood fragment: element assignment components[..][..] = ... not found')
+        return
+    l = strip(asg['lhs'])
+    sx2, res = terms_at(prog, fn, asg_s, [strip(l['base'])['idx'], l['idx'], asg['rhs']])
+    if len(res) != 1:
+        ctx.undecided(R, 'Matrix(blocks)', fn, 'block constructor outside the understood fragment: %d paths reach the element assignment' % len(res))
+        return
+    tR, tC, tV = res[0][1]
+    AU = sp.core.function.AppliedUndef
+    if not (isinstance(tV, AU) and len(tV.args) == 4 and all(isinstance(a_, sp.Symbol) for a_ in tV.args) and tV.func.__name__.split('.')[-1] in (blocks, 'components')):
+        ctx.undecided(R, 'Matrix(blocks)', fn, 'block constructor outside the understood fragment: copied element is %s' % str(tV)[:100])
+        return
+    br, bc, ii, jj = tV.args
+    offR, offC = sp.expand(tR - ii), sp.expand(tC - jj)
+    H, W = (2, 1, 3), (4, 2, 1)
+    tabs = {n_: r_ for n_, r_ in role.items()}
+
+    def concrete(t, rv, cv):
+        t = t.xreplace({br: sp.Integer(rv), bc: sp.Integer(cv)})
+        for _ in range(4):
+            t = t.doit()
+            rep = {}
+            for a_ in t.atoms(AU):
+                n_ = a_.func.__name__
+                n_ = n_[7:] if n_.startswith('@entry:') else n_
+                if not all(x_.is_Integer for x_ in a_.args):
                     continue
-                tab, lo, hi, init = offs[off[0]]
-                if role.get(tab) != want:
-                    probs.append('the %s offset accumulates `%s` (%s), expected the block %s' % (what, tab, role.get(tab), want))
-                if not (lo == 0 and hi == blockvar and init == 0):
-                    probs.append('the %s offset sums [%s,%s) from %s, expected [0,%s) from 0' % (what, lo, hi, init, blockvar))
-    wrong = [p_ for p_ in probs if p_.startswith('the ')]
+                ix = [int(x_) for x_ in a_.args]
+                if tabs.get(n_) == 'heights' and len(ix) == 1 and 0 <= ix[0] < 3:
+                    rep[a_] = sp.Integer(H[ix[0]])
+                elif tabs.get(n_) == 'widths' and len(ix) == 1 and 0 <= ix[0] < 3:
+                    rep[a_] = sp.Integer(W[ix[0]])
+                elif n_ == blocks + '.rows' and len(ix) == 2 and 0 <= ix[0] < 3:
+                    rep[a_] = sp.Integer(H[ix[0]])       # all blocks of one block row have the same height (checked by the constructor)
+                elif n_ == blocks + '.columns' and len(ix) == 2 and 0 <= ix[1] < 3:
+                    rep[a_] = sp.Integer(W[ix[1]])
+            if not rep:
+                break
+            t = t.xreplace(rep)
+        return sp.simplify(t)
+    wrong, unknown = [], []
+    for what, off, idx in (('row', offR, ii), ('column', offC, jj)):
+        if {ii, jj} & off.free_symbols:
+            wrong.append('the %s subscript is %s, not <offset> + %s' % (what, tR if what == 'row' else tC, idx))
+            continue
+        for rv in range(3):
+            for cv in range(3):
+                got = concrete(off, rv, cv)
+                want = sum(H[:rv]) if what == 'row' else sum(W[:cv])
+                if not got.is_number:
+                    unknown.append('%s offset %s' % (what, str(got)[:80]))
+                elif got != want:
+                    wrong.append('the %s offset of block (%d,%d) is %s, expected %d (block heights %s, widths %s)' % (what, rv, cv, got, want, H, W))
+    if unknown and not wrong:
+        ctx.undecided(R, 'Matrix(blocks)', fn, 'block constructor outside the understood fragment: ' + '; '.join(unknown[:2]))
+        return
+    probs = probs + wrong
     if probs and not wrong:
         ctx.undecided(R, 'Matrix(blocks)', fn, 'block constructor outside the understood fragment: ' + '; '.join(probs))
         return
-    ctx.decide(R, 'Matrix(blocks)', fn, not probs, 'block (r,c) is copied to rows sum(heights[0..r))+i, columns sum(widths[0..c))+j',
-               'block placement is wrong: ' + '; '.join(wrong), witness={'problems': probs} if probs else None)
+    ctx.decide(R, 'Matrix(blocks)', fn, not probs, 'block (r,c) is copied to rows sum(heights[0..r))+i, columns sum(widths[0..c))+j (3x3 block layout with heights %s, widths %s)' % (H, W),
+               'block placement is wrong: ' + '; '.join(wrong[:3]), witness={'problems': wrong[:6]} if wrong else None)
 
 
 def all_assign(fn):
